@@ -198,6 +198,10 @@ pub fn lex_long_decade(source: &[char]) -> Option<FoundToken> {
     if source[4] != 's' {
         return None;
     }
+    // "1980st" is the number 1980 with an (incorrect) ordinal suffix, not the decade "1980s" followed by "t".
+    if source.len() > 5 && source[5].is_alphanumeric() {
+        return None;
+    }
 
     Some(FoundToken {
         token: TokenKind::Decade,
